@@ -476,3 +476,73 @@ def c_handler_adapter(kind: int, n0: int, n1: int, bp: bool, err: bool, limit_ra
         if loop.errors():
             devs.append('loop-exception-handler-called')
     return pick_dev(devs, ALLOWED)
+
+
+def c_handler_cancel(chan: bool, n0: int, before: int) -> str:
+    """
+    Handler adapter, cancellation from the peer: the delegate answers request_stream / request_channel (chan) with a
+    hot observable the harness drives (a Subject); the requester grants a SYMBOLIC credit n0, `before` elements
+    are emitted, then the requester's CANCEL arrives while credit may still be outstanding, then the observable
+    produces three more elements.  As with the core API nothing further reaches the wire after the CANCEL, and the
+    stream is dropped (a channel: once the requester's direction is finished too).
+
+    pre: 1 <= n0 <= 0x7FFFFFFF and 0 <= before <= 2
+    post: _ in ALLOWED
+    """
+    from rsocket.frame_builders import to_cancel_frame
+    chan = concb(chan)
+    before = conc(before, 0, 2)
+    subj = Subject()
+    inbound = Obs()
+
+    class D(BaseH):
+        async def request_stream(self, payload):
+            return subj
+
+        async def request_channel(self, payload):
+            obs = type('O', (), {'on_next': lambda s, v: inbound.on_next(v), 'on_error': lambda s, e: inbound.on_error(e),
+                                  'on_completed': lambda s: inbound.on_completed()})()
+            return Channel(subj, obs, 3)
+
+    loop = new_loop()
+    with loop:
+        t = SimTransport(loop)
+        s = RSocketServer(t, handler_factory=hfactory(D))
+        loop.run_ready()
+        sid = 1
+        if chan:
+            t.feed_wire(to_request_channel_frame(sid, Payload(b'rq'), initial_request_n=n0, complete=True))
+        else:
+            t.feed_wire(to_request_stream_frame(sid, Payload(b'rq'), initial_request_n=n0))
+        loop.run_ready()
+
+        def nexts():
+            return [bytes(f.data) for f in t.frames(sid) if isinstance(f, PayloadFrame) and f.flags_next]
+        devs = []
+        for i in range(before):
+            subj.on_next(Payload(bytes([65 + i])))
+            loop.run_ready()
+        if len(nexts()) != min(before, n0):
+            devs.append('C20:elements-on-wire-differ-from-min(emitted,credit)')
+        t.feed_wire(to_cancel_frame(sid))
+        loop.run_ready()
+        at_cancel = len(nexts())
+        for i in range(3):
+            subj.on_next(Payload(bytes([75 + i])))
+            loop.run_ready()
+        loop.advance_us(1000000)
+        if len(nexts()) != at_cancel:
+            devs.append('C20:handler-observable-elements-sent-after-the-peer-cancelled')
+        if any(isinstance(f, ErrorFrame) for f in t.frames()):
+            devs.append('ERROR-frame-on-cancellation')
+        if sid in s._stream_control._streams:
+            devs.append('C20:stream-retained-after-CANCEL')
+        stats.note(True, {'lib': LIB, 'chan': chan, 'before': before})
+        d = generic_dev(loop, s)
+        if d:
+            devs.append(d)
+        t.eof()
+        loop.run_ready()
+        if loop.errors():
+            devs.append('loop-exception-handler-called')
+    return pick_dev(devs, ALLOWED)
